@@ -202,6 +202,9 @@ pub mod ss {
         &&& ((state == BuildState::Done || state == BuildState::Failed) ==> bs.total_pending + b2i(prev == BuildState::Unknown) > 0)
     }
     pub open spec fn set_effect(b0: BuildStates, b1: BuildStates, id: BuildId, build: Build, state: BuildState) -> bool {
+        effect(b0, b1, id, build, state, false)
+    }
+    pub open spec fn effect(b0: BuildStates, b1: BuildStates, id: BuildId, build: Build, state: BuildState, pushq: bool) -> bool {
         let prev = st_of(b0)[ix(id)];
         let pi = first_key(pools_of(b0), pool_name(build));
         &&& st_of(b1) == st_of(b0).update(ix(id), state)
@@ -211,10 +214,53 @@ pub mod ss {
         &&& pools_of(b1).len() == pools_of(b0).len()
         &&& forall|j: int| 0 <= j < pools_of(b0).len() ==>
                 (#[trigger] pools_of(b1)[j]).0 == pools_of(b0)[j].0
-                && pools_of(b1)[j].1.queued == pools_of(b0)[j].1.queued
+                && pools_of(b1)[j].1.queued@ == (if pushq && j == pi { pools_of(b0)[j].1.queued@.push(id) } else { pools_of(b0)[j].1.queued@ })
                 && pools_of(b1)[j].1.depth == pools_of(b0)[j].1.depth
                 && pools_of(b1)[j].1.running as int == pools_of(b0)[j].1.running
                     + b2i(j == pi && state == BuildState::Running) - b2i(j == pi && prev == BuildState::Running)
+    }
+
+    // --- pop_queued: first pool (in declaration order) that has capacity and a queued build
+    pub open spec fn eligible(p: PoolState) -> bool { (p.depth == 0 || p.running < p.depth) && p.queued@.len() > 0 }
+    pub open spec fn pop_ix(ps: Seq<(String, PoolState)>) -> int
+        decreases ps.len()
+    {
+        if ps.len() == 0 { -1 } else if eligible(ps[0].1) { 0 } else {
+            let r = pop_ix(ps.drop_first());
+            if r < 0 { -1 } else { r + 1 }
+        }
+    }
+    pub proof fn lemma_pop_ix(ps: Seq<(String, PoolState)>)
+        ensures ({ let r = pop_ix(ps);
+            -1 <= r < ps.len() && (r >= 0 ==> eligible(ps[r].1) && forall|j: int| 0 <= j < r ==> !eligible(ps[j].1))
+            && (r < 0 ==> forall|j: int| 0 <= j < ps.len() ==> !eligible(ps[j].1)) })
+        decreases ps.len()
+    {
+        if ps.len() > 0 && !eligible(ps[0].1) {
+            lemma_pop_ix(ps.drop_first());
+            let r0 = pop_ix(ps.drop_first());
+            assert forall|j: int| 1 <= j < ps.len() implies ps[j] == ps.drop_first()[j - 1] by {}
+            if r0 >= 0 {
+                assert forall|j: int| 0 <= j < r0 + 1 implies !eligible(ps[j].1) by { if j > 0 { assert(!eligible(ps.drop_first()[j - 1].1)); } }
+            } else {
+                assert forall|j: int| 0 <= j < ps.len() implies !eligible(ps[j].1) by { if j > 0 { assert(!eligible(ps.drop_first()[j - 1].1)); } }
+            }
+        }
+    }
+    pub open spec fn pool_same(a: (String, PoolState), b: (String, PoolState)) -> bool {
+        a.0 == b.0 && a.1.running == b.1.running && a.1.depth == b.1.depth && a.1.queued@ == b.1.queued@
+    }
+    pub open spec fn pop_effect(b0: BuildStates, b1: BuildStates, r: Option<BuildId>) -> bool {
+        let pi = pop_ix(pools_of(b0));
+        &&& b1.states == b0.states && b1.counts == b0.counts && b1.total_pending == b0.total_pending && b1.ready == b0.ready
+        &&& pools_of(b1).len() == pools_of(b0).len()
+        &&& (r is Some <==> pi >= 0)
+        &&& (r is Some ==> r.unwrap() == pools_of(b0)[pi].1.queued@[0])
+        &&& forall|j: int| 0 <= j < pools_of(b0).len() ==>
+                (#[trigger] pools_of(b1)[j]).0 == pools_of(b0)[j].0
+                && pools_of(b1)[j].1.depth == pools_of(b0)[j].1.depth
+                && pools_of(b1)[j].1.running == pools_of(b0)[j].1.running
+                && pools_of(b1)[j].1.queued@ == (if j == pi { pools_of(b0)[j].1.queued@.drop_first() } else { pools_of(b0)[j].1.queued@ })
     }
     }
 }
